@@ -3,11 +3,18 @@ reference evaluation of the documented semantics (not a call into
 retry_policy.py) used by C05/C06 oracles."""
 from __future__ import annotations
 
+import functools
 from typing import Any
 
 from workflows import retry_policy as rp
 
 from .events import EXCS
+
+
+def _use_operators(spec) -> bool:
+    """spell every second combinator with the overloaded operators instead of the named function (a function of the spec, so no
+    tape draw is spent on it)"""
+    return sum(map(ord, repr(spec))) % 2 == 0
 
 
 def build_wait(w):
@@ -41,10 +48,12 @@ def build_stop(s):
         return rp.stop_after_delay(s[1])
     if k == "before_delay":
         return rp.stop_before_delay(s[1])
-    if k == "any":
-        return rp.stop_any(*[build_stop(x) for x in s[1]])
-    if k == "all":
-        return rp.stop_all(*[build_stop(x) for x in s[1]])
+    if k in ("any", "all"):
+        parts = [build_stop(x) for x in s[1]]
+        if _use_operators(s) and len(parts) >= 2:
+            # the same condition spelled with the overloaded operators: (a & b) | c etc.
+            return functools.reduce((lambda a, b: a | b) if k == "any" else (lambda a, b: a & b), parts)
+        return rp.stop_any(*parts) if k == "any" else rp.stop_all(*parts)
     if k == "never":
         return rp.stop_never()
     raise ValueError(s)
@@ -68,10 +77,11 @@ def build_retry(r):
         return rp.retry_always()
     if k == "never":
         return rp.retry_never()
-    if k == "any":
-        return rp.retry_any(*[build_retry(x) for x in r[1]])
-    if k == "all":
-        return rp.retry_all(*[build_retry(x) for x in r[1]])
+    if k in ("any", "all"):
+        parts = [build_retry(x) for x in r[1]]
+        if _use_operators(r) and len(parts) >= 2:
+            return functools.reduce((lambda a, b: a | b) if k == "any" else (lambda a, b: a & b), parts)
+        return rp.retry_any(*parts) if k == "any" else rp.retry_all(*parts)
     if k == "raises":
         def boom(e):
             raise PredicateBoom("retry predicate raised")
